@@ -305,6 +305,12 @@ def run(prog, rep):
     parser_kinds.run(prog, rep)
     rule_root(prog, rep)
     rule_pop(prog, rep)
+    # The string decoder that the compiler's parse entry points run on every string token unwraps
+    # char::from_u32 / to_digit on whatever the lexer let through: its freedom from panics rests on
+    # the lexer rejecting exactly the invalid escapes.  The lexer machine (C03.DFA, 0.5 s) decides
+    # that, including the surrogate range of \uXXXX escapes.
+    from . import lexer_dfa
+    lexer_dfa.run(prog, rep)
     if rep.tier == "thorough":
         from . import inv_parser
 
